@@ -1,5 +1,6 @@
 mod cell;
 mod conc;
+mod d9;
 mod ebr;
 mod list;
 mod pure;
@@ -22,11 +23,40 @@ fn main() {
             let (lines, props, fails) = pure::run(&out, seed, thorough);
             println!("pure: lines={} property_checks={} property_failures={}", lines, props, fails);
         }
+        "ebr-d8" => {
+            let n: usize = arg(&args, "--cases").and_then(|s| s.parse().ok()).unwrap_or(2000);
+            let mut o = util::Out::create(&out);
+            let mut rng = util::Rng::new(seed);
+            let mut hits = 0;
+            let (cap, g0, progs) = ebr::d8_program();
+            for _ in 0..n {
+                let (line, mon) = ebr::run_case(cap, g0, &progs, &mut rng, if n == 1 { ebr::Sched::D8 } else { ebr::Sched::Random });
+                if !mon.is_empty() {
+                    hits += 1;
+                    o.line(&line);
+                    for m in mon {
+                        o.line(&m);
+                    }
+                }
+            }
+            o.finish();
+            println!("ebr-d8: schedules={} violating={}", n, hits);
+        }
         "ebr" => {
             let n: usize = arg(&args, "--cases").and_then(|s| s.parse().ok()).unwrap_or(if thorough { 5000 } else { 300 });
             let mut o = util::Out::create(&out);
             let mut rng = util::Rng::new(seed);
             let mut fails = 0;
+            {
+                // corpus: the directed schedule of finding D8 (guard taken by a running destructor)
+                let (cap, g0, progs) = ebr::d8_program();
+                let (line, mon) = ebr::run_case(cap, g0, &progs, &mut rng, ebr::Sched::D8);
+                o.line(&line);
+                for m in mon {
+                    fails += 1;
+                    o.line(&format!("{} [corpus d8_nested_guard_flush_during_collection]", m));
+                }
+            }
             for _ in 0..n {
                 let (cap, g0, progs) = ebr::gen_program(&mut rng, thorough);
                 let (line, mon) = ebr::run_case(cap, g0, &progs, &mut rng, ebr::Sched::Random);
@@ -85,6 +115,11 @@ fn main() {
             }
             let lines = o.finish();
             println!("{}: cases={} lines={} monitor_failures={}", cmd, n, lines, fails);
+        }
+        "d9" => {
+            let n: usize = arg(&args, "--chain").and_then(|s| s.parse().ok()).unwrap_or(1000);
+            let (adv, bad) = d9::run(n);
+            println!("d9: chain={} epochs_advanced_during_first_subtree={} second_child_destructed_under_pinned_snapshot={}", n, adv, bad);
         }
         "traits" => {
             let (lines, props, fails) = traits::run(&out, seed, thorough);
